@@ -181,6 +181,11 @@ func OracleTerminates(prop string, v *View) []Violation {
 	r := v.R
 	var out []Violation
 	if r.Outcome == "stuck" || r.Outcome == "exhausted" {
+		if len(v.Facts.Producible) == 0 && len(v.Facts.Pending) > 0 {
+			// every output still possible needs something that only a never-ending step (or the tear-down
+			// of the run itself) would produce: there is nothing the run could have returned
+			return nil
+		}
 		sh, parts := hangShape(v)
 		if parts == nil {
 			parts = waitsOnStepsThatNeverStart(v)
